@@ -240,6 +240,7 @@ func runC13(c *Ctx) {
 		}
 	}
 	ruleFillShape(c)
+	ruleFillValue(c)
 	ruleGoCapture(c)
 }
 
@@ -382,4 +383,57 @@ func emitThroughHelper(c *Ctx, in ssa.Instruction, handler string) (ok bool, why
 		return false, "recipient argument is " + describe(cc.Args[aIdx]) + " while the status comes from entry " + idx, true
 	}
 	return true, "", true
+}
+
+// ruleFillValue (C13): what fillRemaining hands to the recipients the backend set no status for is the outcome of
+// this delivery: the value received from the delivery goroutine, the LMTPData call's own result, or a panic marker.
+func ruleFillValue(c *Ctx) {
+	R := c.R
+	R.Rule("R-fill-value", "E4 value flow", "every fillRemaining call passes the delivery's outcome (the received data result, the LMTPData call's result) or a panic marker built on a recovery path", 4)
+	n := 0
+	for _, site := range c.Sites("call:(*statusCollector).fillRemaining") {
+		cc := callCommon(site)
+		if len(cc.Args) < 2 {
+			continue
+		}
+		n++
+		d := describe(cc.Args[1])
+		f := site.Parent()
+		ok := false
+		switch {
+		case d == "<-Conn.dataResult", strings.HasPrefix(d, "invoke:LMTPSession.LMTPData"):
+			ok = true
+		case d == "errPanic" || d == "alloc:complit":
+			// only where a panic has been recovered
+			ff := c.F.Analyze(f)
+			ok = ff.At(site)["builtin:recover() != nil"] || ff.At(site)["param2 != nil"] || funcName(f) == "(*Conn).handlePanic"
+		}
+		R.Ob(c.siteKey(site, "fill value is the delivery outcome"), c.P.InstrPos(site), ok, "recipients without a status are given "+d+", which is not this delivery's result")
+	}
+	R.Ob("fillRemaining call sites/found", "-", n >= 3, fmt.Sprintf("%d call sites", n))
+	// the plain-backend fallback: every recipient gets the Data call's own result
+	nSet := 0
+	for _, site := range c.Sites("call:(*statusCollector).SetStatus") {
+		f := site.Parent()
+		if !strings.HasPrefix(funcName(f), "(*Conn).") {
+			continue
+		}
+		cc := callCommon(site)
+		if len(cc.Args) < 3 {
+			continue
+		}
+		nSet++
+		d := describe(cc.Args[2])
+		R.Ob(c.siteKey(site, "single result given to every recipient is the Data call's"), c.P.InstrPos(site), strings.HasPrefix(d, "invoke:Session.Data"), "the server sets a recipient's status to "+d+" instead of the result of Session.Data")
+		inLoop := false
+		for _, li := range findLoops(f) {
+			if li.overRc && li.blocks[site.Block()] {
+				inLoop = true
+				a := describe(cc.Args[1])
+				R.Ob(c.siteKey(site, "status set for the loop's recipient"), c.P.InstrPos(site), strings.HasPrefix(a, "Conn.recipients[(loopvar:rangeindex") && strings.HasSuffix(a, "]"), "status set for "+a+" inside the loop over Conn.recipients")
+			}
+		}
+		R.Ob(c.siteKey(site, "status set for each accepted recipient"), c.P.InstrPos(site), inLoop, "SetStatus is not inside a loop over Conn.recipients")
+	}
+	R.Ob("server-side SetStatus sites/found", "-", nSet >= 1, fmt.Sprintf("%d call sites", nSet))
 }
